@@ -3,7 +3,7 @@ definitions inside one function), leaf provenance, guard rendering, site search.
 from __future__ import annotations
 
 import ast
-from typing import Any, Callable, Iterator
+from typing import Any, Callable, Iterable, Iterator
 
 from . import cfg as cfgmod
 from .pyfacts import attr_chain, unparse
@@ -368,3 +368,39 @@ def rs_names_reaching(e: Any, defs: dict[str, list[Any]], depth: int = 6, _seen:
         elif n.get("k") == "mcall":
             out.add("." + n["m"] + "()")
     return out
+
+
+# ---------------------------------------------------------------------------
+# Canonical text of a Rust expression: locals with exactly one definition are replaced by (the canonical text of) that definition
+# and closure parameters are numbered, so that two programs that differ only in how they name intermediate values compare equal.
+_RS_ID = r"(?<![\w.:])%s(?![\w(!:])"
+
+
+def rs_canon(e: Any, defs: dict[str, list[Any]], depth: int = 5, keep: Iterable[str] = ()) -> str:
+    import re as _re
+    if not isinstance(e, dict):
+        return str(e)
+    t = expr_text(e)
+    # closure parameters -> positional names
+    k_ = 0
+    for c in walk(e):
+        if c.get("k") == "closure":
+            for p in c.get("params", []):
+                for nd in walk(p):
+                    if nd.get("k") == "p_ident":
+                        t = _re.sub(r"(?<![\w.])%s(?![\w])" % _re.escape(nd["name"]), f"_c{k_}", t)
+                        k_ += 1
+    t = t.replace(" ", "")
+    if depth <= 0:
+        return t
+    for nm, vs in defs.items():
+        if nm in keep or nm == "self":
+            continue
+        ds = [v for v in vs if isinstance(v, dict)]
+        if len(vs) != 1 or len(ds) != 1:
+            continue
+        pat = _RS_ID % _re.escape(nm)
+        if _re.search(pat, t):
+            sub = rs_canon(ds[0], {k: v for k, v in defs.items() if k != nm}, depth - 1, keep)
+            t = _re.sub(pat, lambda _m: "(" + sub + ")", t)
+    return t
